@@ -3,7 +3,7 @@
    Model/Cable.v (assembly of the cable system of a cell; schemes).  The conductance
    formulas G*.X are regenerated from /repo on every run. *)
 From Coq Require Import Reals List Lia Lra.
-From JV Require Import Prim TreeSolve TreeSolveFacts Cable GCellUtils CableFacts HinesArr HinesCheck HinesArrFacts HinesIdx HinesTreeFacts HinesIdxFacts HinesArrPositive.
+From JV Require Import Prim TreeSolve TreeSolveFacts Cable GCellUtils CableFacts HinesArr HinesCheck HinesArrFacts HinesIdx HinesTreeFacts HinesIdxFacts HinesArrPositive AsmStruct AssembleM AssembleTotal AsmIdx AsmIdxFacts.
 Import ListNotations.
 Local Open Scope R_scope.
 
@@ -154,6 +154,69 @@ Proof.
   pose proof (tree_accepted ps ns H1 H2 H3) as A.
   destruct (no_zero_divisor ly tp (idx_wf ps ns H1 H2 H3) ops s0 A M) as [D B].
   apply (arr_solve_correct ly tp ops s0 A D B).
+Qed.
+
+(* ... and the ASSEMBLY (first half of step_voltage_implicit_with_jaxley_spsolve, Model/HinesArr.assemble) does
+   produce such a store: if the index lists the code hands to it are consistent with layout and topology
+   (asm_struct_b: a decidable condition on integers only, evaluated on the code's own arrays for every sampled
+   module) then for ALL positive conductances, all non-negative membrane terms and every dt > 0 the assembled
+   store is M-matrix-like. *)
+Theorem C01_assembly_is_M_matrix_like : forall (ly : layout) (tp : topo) (mask : nat -> nat) (ncomp : nat)
+    (es : list (edge R)) (v vt ct : nat -> R) (dt : R) (group child_inds par_inds : list nat),
+  wf ly tp -> asm_struct_b ly tp mask (map strip es) group child_inds par_inds = true ->
+  0 < dt -> (forall e, In e es -> 0 < e_g R e) -> (forall i, (i < ncomp)%nat -> 0 <= vt i) ->
+  Mstore ly tp (assemble R Rplus Rminus Rmult 0 1 mask ncomp es v vt ct dt group child_inds par_inds).
+Proof.
+  intros ly tp mask ncomp es v vt ct dt group child_inds par_inds W A Hdt Hg Hvt.
+  exact (assembled_Mstore ly tp W mask ncomp es v vt ct dt group child_inds par_inds (asm_struct_b_sound _ _ _ _ _ _ _ A) Hdt Hg Hvt).
+Qed.
+
+(* The whole implicit step of an accepted structure, with NO numeric side condition: for all positive
+   conductances, non-negative membrane terms, all voltages and every dt > 0, no divisor vanishes and the
+   output is THE solution of the assembled system. *)
+Theorem C01_implicit_step_total : forall (ly : layout) (tp : topo) (ops : list op)
+    (mask : nat -> nat) (ncomp : nat) (es : list (edge R)) (v vt ct : nat -> R) (dt : R)
+    (group child_inds par_inds : list nat),
+  check_schedule ly tp ops = true ->
+  asm_struct_b ly tp mask (map strip es) group child_inds par_inds = true ->
+  0 < dt -> (forall e, In e es -> 0 < e_g R e) -> (forall i, (i < ncomp)%nat -> 0 <= vt i) ->
+  let s0 := assemble R Rplus Rminus Rmult 0 1 mask ncomp es v vt ct dt group child_inds par_inds in
+  let out := sv (run R Rplus Rminus Rmult Rdiv 0 1 ly ops s0) in
+  Forall (fun d => d <> 0) (divisors R Rplus Rminus Rmult Rdiv 0 1 ly ops s0) /\
+  (exists y, sat ly tp s0 out y) /\
+  (forall x y, sat ly tp s0 x y -> forall b k, (b < nb tp)%nat -> (k < pl ly b)%nat -> x (cs ly b + k)%nat = out (cs ly b + k)%nat).
+Proof. exact assembled_step_total. Qed.
+
+(* ... and for a CELL the index lists are functions of the parent vector and the counts (Model/AsmIdx.v, compared
+   exactly with the code's comp_edges / branchpoint groups / child_inds / par_inds / slot remapping on every sampled
+   cell) and satisfy the consistency conditions for EVERY cell (Proofs/AsmIdxFacts.v).  Hence, with no side
+   condition left: for every sorted parent vector, all compartment counts >= 1, all positive conductances, all
+   non-negative membrane terms, all voltages and constant terms and every dt > 0, the level-ordered padded
+   elimination of the assembled arrays divides by nothing that vanishes and returns THE solution of the assembled
+   system. *)
+Theorem C01_implicit_step_of_every_cell_total : forall (ps ns : list nat) (es : list (edge R)) (v vt ct : nat -> R) (dt : R),
+  (1 <= length ps)%nat -> (forall b, (1 <= b)%nat -> (b < length ps)%nat -> (nth b ps 0 < b)%nat) ->
+  (forall b, (b < length ps)%nat -> (1 <= nth b ns 0)%nat) ->
+  map strip es = triples_of ps ns ->
+  0 < dt -> (forall e, In e es -> 0 < e_g R e) -> (forall i, (i < total ps ns)%nat -> 0 <= vt i) ->
+  let ly := layout_of ps ns in let tp := topo_of ps in let ops := ops_of_tree ps ns in
+  let s0 := assemble R Rplus Rminus Rmult 0 1 (nthD (mask_of ps ns)) (total ps ns) es v vt ct dt
+                     (group_of ps) (child_inds_of ps) (par_inds_of ps) in
+  let out := sv (run R Rplus Rminus Rmult Rdiv 0 1 ly ops s0) in
+  Forall (fun d => d <> 0) (divisors R Rplus Rminus Rmult Rdiv 0 1 ly ops s0) /\
+  (exists y, sat ly tp s0 out y) /\
+  (forall x y, sat ly tp s0 x y -> forall b k, (b < length ps)%nat -> (k < pl ly b)%nat -> x (cs ly b + k)%nat = out (cs ly b + k)%nat).
+Proof. exact cell_step_total. Qed.
+
+(* non-vacuity of its hypotheses: the edge table of the example cell with unit conductances *)
+Example C01_cell_edges_example :
+  let es := map (fun t : trip => mkedge (fst (fst t)) (snd (fst t)) (snd t) 1) (triples_of [0; 0; 0; 1]%nat [2; 1; 3; 2]%nat) in
+  map strip es = triples_of [0; 0; 0; 1]%nat [2; 1; 3; 2]%nat /\ length es = 18%nat /\ (forall e, In e es -> 0 < e_g R e).
+Proof.
+  cbv zeta. split; [|split].
+  - rewrite map_map. rewrite <- (map_id (triples_of _ _)) at 2. apply map_ext. intros [[a b] c]. reflexivity.
+  - rewrite map_length. vm_compute. reflexivity.
+  - intros e He. apply in_map_iff in He. destruct He as (t & <- & _). cbn. lra.
 Qed.
 
 (* non-vacuity: the index structure of the cell parents [-1,0,0,1], compartments [2,1,3,2] *)
